@@ -244,3 +244,108 @@ func TestVerif_C17_ConcurrentColdCache(t *testing.T) {
 		}
 	})
 }
+
+// First use of a key name by several requests at once (N workers start and encrypt under a fresh key name): every
+// request asks the lock manager for the policy with Upsert, as transit's encrypt/<name> does, and encrypts. However the
+// requests interleave, every ciphertext that was returned must decrypt to its plaintext on the policy as it is stored
+// afterwards.
+func TestVerif_C17_ConcurrentFirstUse(t *testing.T) {
+	rec := verifx.NewRecorder("C17", "concurrent-first-use", "2-3 concurrent tasks call LockManager.GetPolicy(Upsert) for a key name that does not exist yet (lock manager with the policy cache on - sync map or LRU - or off, as on a mount with caching disabled; transactional or plain storage) and encrypt a generated plaintext with the policy they got, interleaved at every storage operation and, with the cache on, at every cache access by a generated schedule; afterwards a fresh cache-less lock manager loads the stored policy: every ciphertext a task received must decrypt to its plaintext, and exactly one version 1 exists; non-trivial = a switch between two unfinished tasks")
+	defer rec.Flush()
+	rapid.Check(t, func(rt *rapid.T) {
+		phys := verifx.NewRec(verifx.NewInmem(rapid.Bool().Draw(rt, "transactionalStorage")))
+		r := verifx.RecOf(phys)
+		r.Logging = false
+		st := logical.NewLogicalStorage(phys)
+		kt := []KeyType{KeyType_AES256_GCM96, KeyType_ChaCha20_Poly1305}[rapid.IntRange(0, 1).Draw(rt, "keyType")]
+		cacheMode := []string{"off", "off", "syncmap", "lru"}[rapid.IntRange(0, 3).Draw(rt, "policyCache")]
+		size := 0
+		if cacheMode == "lru" {
+			size = 10
+		}
+		lm, err := NewLockManager(cacheMode != "off", size)
+		if err != nil {
+			t.Fatalf("harness: %v", err)
+		}
+		sched := verifx.NewSched(r)
+		sched.AfterOps = true
+		if cacheMode != "off" {
+			lm.cache = &c17GatedCache{inner: lm.cache, s: sched}
+		}
+		defer func() {
+			sched.RunToEnd(20 * time.Second)
+			r.Gate, r.GateAfter, r.TaskOf = nil, nil, nil
+		}()
+		type task struct {
+			pt       string
+			ct       string
+			err      error
+			upserted bool
+		}
+		n := rapid.IntRange(2, 3).Draw(rt, "tasks")
+		tasks := make([]*task, n)
+		for i := range tasks {
+			tk := &task{pt: b64(c17Bytes(rt, "pt", 1, 16))}
+			tasks[i] = tk
+			sched.Spawn(fmt.Sprintf("encrypt%d", i), func() {
+				p, ups, err := lm.GetPolicy(c17Ctx, PolicyRequest{Storage: st, Name: c17Name, KeyType: kt, Upsert: true}, rand.Reader)
+				if err != nil || p == nil {
+					tk.err = fmt.Errorf("GetPolicy: %v", err)
+					return
+				}
+				tk.upserted = ups
+				defer p.Unlock() // held for the whole request, as transit's encrypt path does
+				tk.ct, tk.err = p.EncryptWithFactory(0, nil, nil, tk.pt)
+			})
+		}
+		switches, cur := 0, -1
+		serr := sched.Run(func(parked []int) int {
+			stay := false
+			for _, p := range parked {
+				if p == cur {
+					stay = true
+				}
+			}
+			if stay && rapid.IntRange(0, 9).Draw(rt, "step") < 6 {
+				return cur
+			}
+			pick := parked[rapid.IntRange(0, len(parked)-1).Draw(rt, "pick")]
+			if cur >= 0 && pick != cur && !sched.Tasks()[cur].Done {
+				switches++
+			}
+			cur = pick
+			return pick
+		})
+		trace := sched.Trace
+		if serr != nil {
+			sched.RunToEnd(10 * time.Second)
+			t.Fatalf("harness: %v", serr)
+		}
+		r.Gate, r.GateAfter = nil, nil
+		if len(trace) > 100 {
+			trace = trace[:100]
+		}
+		detail := map[string]any{"cache": cacheMode, "key_type": kt.String(), "schedule": trace}
+		lm2, _ := NewLockManager(false, 0)
+		p2, _, err := lm2.GetPolicy(c17Ctx, PolicyRequest{Storage: st, Name: c17Name}, rand.Reader)
+		if err != nil || p2 == nil {
+			for i, tk := range tasks {
+				if tk.err == nil && tk.ct != "" {
+					rec.Violation(rt, "first-use-ciphertext-without-stored-key", detail, "task %d received a ciphertext, but no policy is stored afterwards (%v)", i, err)
+				}
+			}
+		} else {
+			for i, tk := range tasks {
+				if tk.err != nil || tk.ct == "" {
+					continue
+				}
+				back, derr := p2.DecryptWithFactory(nil, nil, tk.ct)
+				if derr != nil || back != tk.pt {
+					rec.Violation(rt, "first-use-ciphertext-undecryptable", detail, "task %d (upserted=%v) received ciphertext %s for its plaintext, but the policy as stored afterwards answers %v / %q: the key it was made with was overwritten by another first use", i, tk.upserted, verifx.Trunc(tk.ct, 40), derr, verifx.Trunc(back, 24))
+				}
+			}
+			p2.Unlock()
+		}
+		rec.Case("cache="+cacheMode, switches > 0, verifx.Digest(cacheMode, trace), func() any { return detail })
+	})
+}
